@@ -436,9 +436,7 @@ def apply(prog, Body):
         new_fns = sorted(p for p, r in raws.items() if p not in known and r.get("kind") in ("fn", "method", "assoc_fn", "assocfn", "function"))
         if table_name == "bodies":
             prog.new_functions = new_fns
-        if not new_fns:
-            continue
-        for p in list(table):
+        for p in (list(table) if new_fns else []):
             # (helpers keep their own bodies as well — rules may still look at them — with their own new callees inlined)
             b = table[p]
             new_raw, done = inline_body(raws, known, p, b.raw)
@@ -447,8 +445,12 @@ def apply(prog, Body):
                 if table_name == "bodies":
                     prog.inlined[p] = done
         if table_name == "bodies":
-            # closures defined inside an inlined helper now also belong to the caller
-            for caller, helpers in prog.inlined.items():
+            # closures defined inside an inlined helper, or inside a closure whose body was inlined by the combinator lowering, are now
+            # built in the caller as well: their captured values are described there
+            for caller, cbody in table.items():
+                hosts_ = set(prog.inlined.get(caller, [])) | set(blk.get("from_closure") for blk in cbody.raw["blocks"] if blk.get("from_closure"))
+                if not hosts_:
+                    continue
                 for cp, cb in table.items():
-                    if cb.kind in ("closure", "coroutine") and cb.parent in helpers:
+                    if cp != caller and cb.kind in ("closure", "coroutine") and cb.parent in hosts_ and cp not in prog.extra_closures.get(caller, []):
                         prog.extra_closures.setdefault(caller, []).append(cp)
